@@ -174,6 +174,59 @@ def unit_semilocal(mode):
     return run
 
 
+def unit_semilocal_alldens(mode):
+    """Closed-shell agreement of the semilocal features for EVERY positive density, including the window around ALPHA_TOL that the main unit
+    excludes by its precondition (rho > 2 ALPHA_TOL)."""
+    def run(ctx):
+        it = ctx.interp
+        sm, pm = it.load_module(SMOD), it.load_module(PMOD)
+        st = it.call(sm.ns["SemilocalSettings"], [mode], {})
+        p1 = it.call(pm.ns["SemilocalPlan"], [st, 1], {})
+        p2 = it.call(pm.ns["SemilocalPlan"], [st, 2], {})
+        fq = [PMOD + ":SemilocalPlan.get_feat", PMOD + ":_BaseSemilocalPlan._fill_feat_%s_" % mode, SMOD + ":get_s2", SMOD + ":get_alpha"]
+        r1 = sym_array("r", (1, 5, 1))
+        hyps = [tm.mk_lt(tm.ZERO, r1[0, 0, 0]), tm.mk_le(tm.ZERO, r1[0, 4, 0])]
+        it.hyps = list(hyps)
+        r2 = np.concatenate([half(r1), half(r1)], axis=0)
+        f1 = [p for p in all_paths(it, lambda: it.call_method(p1, "get_feat", [r1.copy()])) if p[0] == "return"]
+        f2 = [p for p in all_paths(it, lambda: it.call_method(p2, "get_feat", [r2.copy()])) if p[0] == "return"]
+        nf = 3 if mode in ("nst", "npa") else 2
+        names = {"nst": ["n", "sigma", "tau"], "npa": ["n", "s2", "alpha"], "ns": ["n", "sigma"], "np": ["n", "s2"]}[mode]
+        ctx.holds("all-densities[%s]: both plans return" % mode, len(f1) >= 1 and len(f2) >= 1, "", fq)
+        for i in range(nf):
+            verdicts = []
+            for o1, a1, pc1, _ in f1:
+                for o2, a2, pc2, _ in f2:
+                    H = hyps + pc1 + pc2
+                    if not smt.feasible(H, 3.0)[0]:
+                        continue
+                    verdicts.append(vc.decide_equal(H, tm.drop_small_addends(a2[0, i, 0]), tm.drop_small_addends(a1[0, i, 0]), ctx.timeout, ctx.rng))
+            bad = [v for v in verdicts if v.status != "discharged"]
+            v = bad[0] if bad else (verdicts[0] if verdicts else vc.Verdict("undecided", "engine", "no feasible path pair"))
+            ctx._rec("obligation", "all-densities[%s]: closed-shell feature %s (nspin=2 at half densities) = unpolarised feature for every positive density" % (mode, names[i]), v, fq,
+                     replay=replay_alpha_tol(mode, i))
+    return run
+
+
+def replay_alpha_tol(mode, i):
+    def replay(wit):
+        from pyvc import native
+        native.install_shim()
+        from ciderpress.dft.settings import SemilocalSettings
+        from ciderpress.dft.plans import SemilocalPlan
+        st = SemilocalSettings(mode)
+        p1, p2 = SemilocalPlan(st, 1), SemilocalPlan(st, 2)
+        n = 1.5e-10                                 # total density between ALPHA_TOL and 2 ALPHA_TOL
+        g = np.array([1e-12, 0.0, 0.0])
+        rho1 = np.zeros((1, 5, 1))
+        rho1[0, 0, 0], rho1[0, 1:4, 0], rho1[0, 4, 0] = n, g, 5e-14
+        rho2 = np.concatenate([rho1 / 2, rho1 / 2])
+        a = p1.get_feat(rho1.copy())[0, i, 0]
+        b = p2.get_feat(rho2.copy())[0, i, 0]
+        return {"reproduced": bool(abs(a - b) > 1e-8 * (abs(a) + abs(b) + 1e-300)), "feature_nspin1": float(a), "feature_nspin2_closed_shell": float(b), "total_density": n, "ALPHA_TOL": 1e-10}
+    return replay
+
+
 def unit_rho_tuple(ctx):
     it = ctx.interp
     pm = it.load_module(PMOD)
@@ -649,6 +702,7 @@ def units():
     u = [("exponent/mgga", unit_exponent(False)), ("exponent/gga", unit_exponent(True)), ("rho-tuple", unit_rho_tuple)]
     for mode in ("nst", "npa", "ns", "np"):
         u.append(("semilocal/" + mode, unit_semilocal(mode)))
+        u.append(("semilocal-all-densities/" + mode, unit_semilocal_alldens(mode)))
     for version in ("i", "j", "ij", "k"):
         for level in ("MGGA", "GGA"):
             for rm in ("one", "expnt"):
@@ -676,4 +730,4 @@ TRUSTED = [
 ]
 
 if __name__ == "__main__":
-    sys.exit(run_property("C07", "proof", units(), EXPLANATION, TRUSTED, min_obligations=300))
+    sys.exit(run_property("C07", "other", units(), EXPLANATION, TRUSTED, min_obligations=300))
